@@ -167,7 +167,29 @@ def one_history(rng, mode, tmpdirs):
         handed = []
         live = []          # iterators in flight: (kind, iterator, position)
         for _ in range(rng.randint(3, 14)):
-            act = rng.choice(['access', 'access', 'mutate', 'mutate_original', 'live_start', 'live_start', 'live_next', 'live_next', 'live_next', 'live_next'])
+            act = rng.choice(['access', 'access', 'mutate', 'mutate_original', 'cycle_run', 'live_start', 'live_start', 'live_next', 'live_next', 'live_next', 'live_next'])
+            if act == 'cycle_run' and n:
+                # ds.cycle() runs the pipeline again in every pass ("itertools.cycle without caching"): what it hands out in
+                # a later pass is as pristine as in the first, whatever was done to the objects of earlier passes
+                kind = rng.choice(['cycle', 'cycle', 'cycle_items', 'items_cycle'] if keys else ['cycle'])
+                it = iter({'cycle': lambda: ds.cycle(), 'cycle_items': lambda: ds.cycle().items(), 'items_cycle': lambda: ds.items().cycle()}[kind]())
+                steps.append(('cycle_run', kind))
+                for t in range(rng.randint(n + 1, 3 * n)):
+                    obj = next(it)
+                    if kind != 'cycle':
+                        obj = obj[1]
+                    if not deq(obj, pristine[t % n]):
+                        fails.append(('handed_out_differs_from_stored', {'mode': mode, 'path': kind, 'position': t % n, 'pass': t // n,
+                                                                          'got': repr(obj)[:200], 'stored': repr(pristine[t % n])[:200],
+                                                                          'steps': steps[:]}))
+                        break
+                    handed.append(obj)
+                    if rng.random() < 0.7:
+                        steps.append(('mutate_just_received', mutate(rng, obj)))
+                del it
+                continue
+            if act == 'cycle_run':
+                act = 'access'
             if act == 'live_start' and n:
                 kind = rng.choice(['iter', 'items', 'prefetch1', 'copy_iter', 'selection_items', 'selection_iter'] if keys else ['iter', 'prefetch1', 'copy_iter', 'selection_iter'])
                 if kind == 'prefetch1' and mode.endswith('_over_table'):
